@@ -53,6 +53,7 @@ class Rig:
         self.n = 0
         self.sent = []           # (cur, dst hex|None, octets)
         self.entries = []        # (cur, entry)
+        self.late = []           # answers the application gave outside any datagram's processing
         self.in_app = False
         rig = self
         adapter = dev.nsap.local_adapter
@@ -84,7 +85,7 @@ class Rig:
         def sap_request(xpdu):
             if not isinstance(xpdu, ConfirmedRequestPDU):
                 return o_sapreq(xpdu)
-            before = dev.smap.dccEnableDisable
+            before = rig.dcc_snapshot()
             mark = len(rig.entries)
             rig.in_app = True
             try:
@@ -99,9 +100,12 @@ class Rig:
                 rig.in_app = False
                 if len(rig.entries) == mark:
                     rig.entries.append((rig.cur, {"k": "silent"}))
-                after = dev.smap.dccEnableDisable
-                if after != before:
-                    rig.entries[mark][1]["dcc"] = dcc_code(after)
+                after = rig.dcc_snapshot()
+                if after != before and rig.entries[mark][1].get("k") == "simple":
+                    # an ACCEPTED DeviceCommunicationControl (acknowledged): the gate, and how far ahead the re-enable
+                    # task is.  A refused request must change nothing: whatever it did is NOT told to the model.
+                    rig.entries[mark][1]["dcc"] = dcc_code(after[0])
+                    rig.entries[mark][1]["dccus"] = after[2]
         dev.asap.sap_request = sap_request
 
         o_sapconf = dev.smap.sap_confirmation
@@ -119,6 +123,17 @@ class Rig:
                 e = {"k": "abort", "srv": bool(apdu.apduSrv), "r": num(AbortReason, apdu.apduAbortRejectReason)}
             else:
                 e = {"k": "other"}
+            if not rig.in_app and rig.cur is None:
+                # the application answers LATER, from a task of its own
+                d = apdu.pduDestination
+                le = {"pos": len(rig.sent), "t": dev.vt.now, "src": bytes(d.addrAddr).hex(), "id": apdu.apduInvokeID,
+                      "svc": apdu.apduService if apdu.apduService is not None else 0, "ans": e}
+                rig.late.append(le)
+                try:
+                    o_sapconf(apdu)
+                finally:
+                    le["end"] = len(rig.sent)
+                return
             if not rig.in_app:
                 e["own"] = True          # the ASAP answers by itself (decode error / execution reject already recorded)
                 if not (rig.entries and rig.entries[-1][0] == rig.cur and not rig.entries[-1][1].get("own")):
@@ -149,6 +164,15 @@ class Rig:
             out.append([p, tr.invokeID, tr.state])
         return out
 
+    def dcc_snapshot(self):
+        """(gate, identity of the re-enable task, microseconds until it is due)"""
+        dev = self.dev
+        t = getattr(dev.app, "_dcc_enable_task", None)
+        if t is not None and not t.isScheduled:
+            t = None
+        return (dev.smap.dccEnableDisable, id(t) if t is not None else None,
+                int(round((t.taskTime - dev.vt.now) * 1000000)) if t is not None else None)
+
     def netdigest(self):
         """[adapterNet, adapterNetConfigured] and the keys the one adapter is filed under"""
         a = self.dev.nsap.local_adapter
@@ -163,6 +187,7 @@ class Rig:
         self.cur = None
         del self.sent[:]
         del self.entries[:]
+        del self.late[:]
         e0 = len(vt.errors)
         base = dev.snapshot()
         for (src, f, bc) in norm(frames):
@@ -534,6 +559,47 @@ def histories(ctx, rng, T, n):
 
 # ------------------------------------------------------------------ timed scripts, several devices in one process
 
+DEFER = (0.1, 1.0, 2.9, 3.5)         # seconds, by invoke id modulo 4; the last one is beyond the application timeout
+
+
+def make_deferred(dev):
+    """a gateway-style application: for 'proxied' objects (binaryValue 1, multiStateValue 1, file 1) the stock
+    helper's work — and its answer — happens LATER in a task of the application, as Application.indication
+    would have done it (execution errors become Error PDUs, reject / abort exceptions Reject / Abort PDUs)"""
+    from bacpypes.task import FunctionTask
+    from bacpypes.errors import ExecutionError, RejectException, AbortException
+    from bacpypes.apdu import Error, RejectPDU, AbortPDU
+    app = dev.app
+    proxied = (("binaryValue", 1), ("multiStateValue", 1), ("file", 1))
+
+    def wrap(name, key):
+        stock = getattr(app, name)
+
+        def helper(apdu):
+            if key(apdu) not in proxied:
+                return stock(apdu)
+
+            def later():
+                try:
+                    stock(apdu)
+                except RejectException as err:
+                    r = RejectPDU(reason=err.rejectReason)
+                    r.set_context(apdu)
+                    app.response(r)
+                except AbortException as err:
+                    a = AbortPDU(reason=err.abortReason)
+                    a.set_context(apdu)
+                    app.response(a)
+                except ExecutionError as err:
+                    app.response(Error(errorClass=err.errorClass, errorCode=err.errorCode, context=apdu))
+                except Exception:
+                    app.response(Error(errorClass='device', errorCode='operationalProblem', context=apdu))
+            FunctionTask(later).install_task(delta=DEFER[apdu.apduInvokeID % 4])
+        setattr(app, name, helper)
+    wrap("do_ReadPropertyRequest", lambda a: a.objectIdentifier)
+    wrap("do_AtomicReadFileRequest", lambda a: a.fileIdentifier)
+
+
 class World:
     """1..3 complete device stacks in ONE process (one scheduler), on one LAN or each on its own, every one
     instrumented; runs a SCRIPT of events
@@ -543,12 +609,18 @@ class World:
     FunctionTask (10 min), installed BEFORE anything arrives (they sit in the scheduler's heap in front of the
     transaction timers)."""
 
-    def __init__(self, Device, ndev=1, own_lans=False, housekeeping=False):
+    def __init__(self, Device, ndev=1, own_lans=False, housekeeping=False, password=None, deferred=False):
         first = Device()
         self.devs = [first] + [Device(beside=first, address=C.DEVICE + k, own_lan=own_lans) for k in range(1, ndev)]
         self.rigs = [Rig(dev=d) for d in self.devs]
         self.vt = first.vt
         self.app_tasks = []
+        if password:
+            for d in self.devs:
+                d.device._dcc_password = password
+        if deferred:
+            for d in self.devs:
+                make_deferred(d)
         if housekeeping:
             # 1: a recurring task (5 min); 2: + a housekeeping FunctionTask (10 min); 3: + a second one (7 min)
             from bacpypes.task import RecurringTask, FunctionTask
@@ -589,6 +661,7 @@ class World:
             r.cur = None
             del r.sent[:]
             del r.entries[:]
+            del r.late[:]
         e0 = len(vt.errors)
         base = set(id(t) for (_w, t) in vt.pending())
         steps = [[] for _ in rigs]              # per device: what happened, in order
@@ -623,11 +696,22 @@ class World:
                     close_group()
                     open_group = False
                 marks = [len(r.sent) for r in rigs]
+                lates = [len(r.late) for r in rigs]
+                t_from = t
                 t = t + delay
                 ok = vt.run(until=t, max_loops=200000) and ok
                 for j, r in enumerate(rigs):
-                    steps[j].append({"kind": "adv", "us": int(round(delay * 1000000)),
-                                     "out": [[d, mask(o)] for (c, d, o) in r.sent[marks[j]:] if c is None and not is_unconf(o)]})
+                    # the application may have answered (late) meanwhile: time passes up to each such answer
+                    pos, at = marks[j], t_from
+                    for le in r.late[lates[j]:]:
+                        steps[j].append({"kind": "adv", "us": int(round((le["t"] - at) * 1000000)),
+                                         "out": [[d, mask(o)] for (c, d, o) in r.sent[pos:le["pos"]] if c is None and not is_unconf(o)]})
+                        steps[j].append({"kind": "respond", "src": le["src"], "id": le["id"], "svc": le["svc"],
+                                         "ans": dict((k2, v2) for k2, v2 in le["ans"].items() if k2 != "own"),
+                                         "out": [[d, mask(o)] for (c, d, o) in r.sent[le["pos"]:le["end"]] if not is_unconf(o)]})
+                        pos, at = le["end"], le["t"]
+                    steps[j].append({"kind": "adv", "us": int(round((t - at) * 1000000)),
+                                     "out": [[d, mask(o)] for (c, d, o) in r.sent[pos:] if c is None and not is_unconf(o)]})
             targets = range(len(rigs)) if bc else [k]
             rigs[k].dev.peers[src].send(octets, None if bc else rigs[k].dev.address)
             for j in targets:
@@ -639,6 +723,7 @@ class World:
         if open_group:
             close_group()
         marks = [len(r.sent) for r in rigs]
+        lates = [len(r.late) for r in rigs]
         ok = vt.run(until=vt.now + max(d.bound() for d in self.devs), max_loops=200000) and ok
         ltasks, bad = self.leftover(base)
         for (tk, _d) in self.app_tasks:
@@ -652,6 +737,7 @@ class World:
                          "fin": {"out": [[dd, mask(o)] for (c, dd, o) in r.sent[marks[j]:] if not is_unconf(o)],
                                  "sv": r.digest(), "cl": len(d.smap.clientTransactions), "net": r.netdigest()},
                          "residue": d.residue(), "delivered": r.n, "expected": counts[j],
+                         "late_after_script": len(r.late) - lates[j],
                          "dcc": dcc_code(d.smap.dccEnableDisable),
                          "description": bytes(d.file._data).decode("latin-1"),
                          "sent": [[dd, mask(o)] for (c, dd, o) in r.sent if not is_unconf(o)]})
@@ -659,16 +745,31 @@ class World:
                 "late_tasks": ltasks, "unexpected_tasks": bad}
 
 
+def answers_of(entries):
+    """the application's behaviour as the model is told it: its answers; 'later' where the helper returned
+    without answering"""
+    out = []
+    for e in entries:
+        if e["k"] == "other":
+            continue
+        a = dict(e)
+        a.pop("own", None)
+        if a["k"] == "silent":
+            a["k"] = "later"
+        out.append(a)
+    return out
+
+
 def script_ops(rec_dev):
     ops = []
     for st in rec_dev["steps"]:
         if st["kind"] == "adv":
             ops.append({"op": "advance", "us": st["us"]})
+        elif st["kind"] == "respond":
+            ops.append({"op": "respond", "src": st["src"], "id": st["id"], "svc": st["svc"], "ans": st["ans"]})
         else:
-            ans = [dict(e) for e in st["entries"] if e["k"] not in ("silent", "other")]
-            for a in ans:
-                a.pop("own", None)
-            ops.append({"op": "recv", "src": "%02x" % st["src"], "bc": st["bc"], "hex": st["hex"], "app": ans})
+            ops.append({"op": "recv", "src": "%02x" % st["src"], "bc": st["bc"], "hex": st["hex"],
+                        "app": answers_of(st["entries"])})
     ops.append({"op": "quiesce"})
     return ops
 
@@ -795,7 +896,113 @@ def scripts(ctx, rng, T, stream):
             sc = [(0,) + stray(66, 10) + (False, a), (0, 10, rp[:4] + bytes([66]) + rp[5:], False, b),
                   (1, 10, rp[:4] + bytes([66]) + rp[5:], False, b), (0, 11, rp[:4] + bytes([66]) + rp[5:], False, a)]
             out.append(({"ndev": 2}, sc, "two/stray-%d%d" % (a, b), {}))
+    elif stream == "async":
+        # a gateway-style application answers LATER (0.1 / 1 / 2.9 s: within the application timeout; 3.5 s: too late)
+        bv = lambda inv, prop=0x55: rp[:4] + bytes([inv]) + rp[5:7] + bytes.fromhex("01400001") + bytes([0x19, prop])
+        mv = lambda inv: rp[:4] + bytes([inv]) + rp[5:7] + bytes.fromhex("04c00001") + bytes([0x19, 0x55])
+        av = lambda inv: rp[:4] + bytes([inv]) + rp[5:]
+        arf = lambda inv: T["arf"][:4] + bytes([inv]) + T["arf"][5:]
+        seqs = []
+        for base in (0, 1, 2, 3):
+            seqs.append([(0, 10, bv(base), False, 0)])
+            seqs.append([(0, 10, arf(4 + base), False, 0), (0, 11, mv(8 + base), False, 0), (0, 10, av(40), False, 0)])
+            seqs.append([(0, 10, bv(base, 0x09), False, 0)])                       # a property the object does not have: deferred Error
+        seqs.append([(0, 10, bv(i), False, 0) for i in range(8)])                  # eight deferred answers outstanding at once
+        seqs.append([(0, 10, bv(1), False, 0), (0.5, 10, bv(1), False, 0), (1, 10, av(41), False, 0)])      # retransmission while the answer is pending
+        seqs.append([(0, 10, bv(2), False, 0), (1, 10, b"\x01\x00" + bytes([0x70, 2, 0]), False, 0)])     # the client aborts meanwhile
+        seqs.append([(0, 10, bv(3), False, 0), (3.2, 10, bv(3), False, 0)])        # asked again after the timeout, before the late answer
+        nplain = len(seqs) - 3
+        utext = "deferred " * 8
+        segs = upload(utext, 67, 20, 2)
+        seqs.append([(0 if i == 0 else 1, 10, sg, False, 0) for i, sg in enumerate(segs)] + [(0, 10, bv(1), False, 0)])
+        for q_, sq in enumerate(seqs):
+            sc = list(sq) + [(10, 12, av(42), False, 0)]          # long after every deferred answer
+            special = nplain <= q_ < nplain + 3                   # duplicates / aborts: lockstep decides, not the reply count
+            out.append(({"ndev": 1, "deferred": True}, sc, "async/%s%d" % ("special-" if special else "", q_),
+                        {"upload": (0, 10, 67, utext, len(segs), 2, True)} if q_ == len(seqs) - 1 else {}))
+    elif stream == "dccpw":
+        # a device with a DeviceCommunicationControl PASSWORD: timed disables, refused and mutated copies, renewals;
+        # afterwards it must be enabled again no later than the LAST ACCEPTED request says
+        from bacpypes.apdu import DeviceCommunicationControlRequest, ConfirmedRequestPDU
+        from bacpypes.primitivedata import CharacterString
+
+        def dcc(inv, value, minutes=None, password="secret"):
+            kw = {"enableDisable": value}
+            if minutes is not None:
+                kw["timeDuration"] = minutes
+            if password is not None:
+                kw["password"] = CharacterString(password)
+            r = DeviceCommunicationControlRequest(**kw)
+            x = ConfirmedRequestPDU()
+            r.encode(x)
+            return b"\x01\x04" + bytes([0x02, 0x05, inv, 17]) + bytes(x.pduData)
+        av = lambda inv: rp[:4] + bytes([inv]) + rp[5:]
+        probes = lambda t0: [(t0, 10, av(90), False, 0), (0, 11, T["rp-index"][:4] + bytes([91]) + T["rp-index"][5:], False, 0)]
+        good = dcc(80, "disable", 1)
+        scs = []
+        muts = []
+        for pos in range(6, len(good)):
+            for v in ((good[pos] ^ 0x01), (good[pos] + 1) & 255, 0x00, 0xFF):
+                if v != good[pos]:
+                    muts.append(good[:4] + bytes([81]) + good[5:pos] + bytes([v]) + good[pos + 1:])
+        muts += [dcc(81, "disable", 1, "secreT"), dcc(81, "disable", 1, None), dcc(81, "disable", 1, ""), dcc(81, "enable", None, "wrong"),
+                 dcc(81, "disable", 2, "secrets"), good[:4] + bytes([81]) + good[5:-1], good[:4] + bytes([81]) + good[5:] + b"\x00"]
+        if quick:
+            muts = muts[::9] + muts[-7:]
+        for m in muts:
+            # accepted timed disable; 5 s later the mutated copy; after the (longest possible) duration valid requests
+            scs.append(([(0, 10, good, False, 0), (5, 11, m, False, 0)] + probes(20) + probes(50) + probes(120), "mut"))
+        for value in ("disable", "disableInitiation"):
+            for minutes in (1, 2):
+                g = dcc(82, value, minutes)
+                scs.append(([(0, 10, g, False, 0)] + probes(30) + probes(minutes * 60), "plain"))
+                scs.append(([(0, 10, g, False, 0), (10, 10, dcc(83, value, minutes, "nope"), False, 0)] + probes(minutes * 60), "refused"))
+                scs.append(([(0, 10, g, False, 0), (40, 10, dcc(83, value, minutes), False, 0)] + probes(minutes * 60 - 30) + probes(45), "renewed"))
+                scs.append(([(0, 10, g, False, 0), (10, 10, dcc(83, "enable"), False, 0)] + probes(5) +
+                            [(5, 10, dcc(84, value, minutes, "x"), False, 0)] + probes(90), "enabled-then-refused"))
+                scs.append(([(0, 10, g, False, 0), (10, 10, dcc(83, value, None), False, 0), (10, 10, dcc(84, value, 1, "bad"), False, 0)] +
+                            probes(200), "forever"))
+                scs.append(([(0, 10, dcc(83, value, minutes, "bad"), False, 0), (1, 10, g, False, 0), (2, 10, dcc(84, value, 3, None), False, 0),
+                             (3, 10, dcc(85, "enable", None, "Secret"), False, 0)] + probes(20) + probes(minutes * 60), "refused-first"))
+        for q_, (sc, lab) in enumerate(scs):
+            out.append(({"ndev": 1, "password": "secret", "housekeeping": (q_ % 3)}, sc, "dccpw/%s-%d" % (lab, q_), {}))
     return out
+
+
+def dcc_reference(events, replies_by_event):
+    """independent reading of a DeviceCommunicationControl history: -> for every event, is a reply owed?
+    A DCC / ReinitializeDevice request is always looked at.  An ACCEPTED DCC (answered with a SimpleACK) sets the
+    gate: enable; or disable / disable-initiation, for its time duration (minutes) if it has one, else for good.
+    A refused one changes nothing.  Only 'disable' silences the device."""
+    state, until = 0, None
+    t = 0.0
+    owed = []
+    for i, (delay, src, octets, bc, k) in enumerate(events):
+        t += delay
+        if until is not None and t >= until:
+            state, until = 0, None
+        kind, inv = C.classify(octets)
+        if kind != "confirmed":
+            owed.append(False)
+            continue
+        svc = octets[5]
+        owed.append(state != 1 or svc in (17, 20))
+        if svc == 17 and replies_by_event.get(i) == 2:
+            body = octets[6:]
+            minutes, value, j = None, 0, 0
+            if j < len(body) and body[j] & 0xF8 == 0x08:                 # [0] time duration
+                n = body[j] & 7
+                minutes = int.from_bytes(body[j + 1:j + 1 + n], "big")
+                j += 1 + n
+            if j < len(body) and body[j] & 0xF8 == 0x18:                 # [1] enable-disable
+                n = body[j] & 7
+                value = int.from_bytes(body[j + 1:j + 1 + n], "big")
+            if value == 0:
+                state, until = 0, None
+            else:
+                state = value if value in (1, 2) else 0
+                until = (t + minutes * 60.0) if minutes else None
+    return owed
 
 
 def script_shard(ctx, spec):
@@ -811,7 +1018,8 @@ def script_shard(ctx, spec):
 
 
 def run_script(ctx, Device, stream, wcfg, sc, label, expect, model_ok):
-    world = World(Device, wcfg.get("ndev", 1), wcfg.get("own_lans", False), wcfg.get("housekeeping", False))
+    world = World(Device, wcfg.get("ndev", 1), wcfg.get("own_lans", False), wcfg.get("housekeeping", False),
+                  wcfg.get("password"), wcfg.get("deferred", False))
     rec = world.run(sc)
     case = {"stream": "model/" + stream, "template": label, "world": wcfg,
             "script": [list(e[:2]) + [e[2].hex()] + list(e[3:]) if e[0] != "rearm" else ["rearm"] for e in sc],
@@ -827,11 +1035,32 @@ def run_script(ctx, Device, stream, wcfg, sc, label, expect, model_ok):
             ctx.fail("residue-transaction", case, "device %d: leftover after quiescence: %r" % (j, rd["residue"]), errors=rec["errors"])
     events = [e for e in sc if e[0] != "rearm"]
     # every well-framed request gets exactly one reply FROM THE DEVICE IT WAS SENT TO, to its sender
+    skip = set()
+    if stream == "dccpw":
+        # which DCC requests were accepted is read off the replies; everything else by the independent reference
+        rd0 = rec["devices"][0]
+        rtype = {}
+        recvs = [st for st in rd0["steps"] if st["kind"] == "recv"]
+        for i, st in enumerate(recvs):
+            hs = [C.decode_apdu_header(bytes.fromhex(o)) for (_d, o) in st["out"]]
+            hs = [h for h in hs if h and h.get("type") in C.REPLY_TYPES]
+            if hs:
+                rtype[i] = hs[0]["type"]
+        for i, ow in enumerate(dcc_reference(events, rtype)):
+            if not ow:
+                skip.add(i)
+    if stream == "async":
+        # an answer deferred beyond the application timeout comes too late: the transaction is gone
+        for i, (delay, src, octets, bc, k) in enumerate(events):
+            kind, inv = C.classify(octets)
+            if kind == "confirmed" and DEFER[inv % 4] > 3.0 and (octets[7:11] in (bytes.fromhex("01400001"), bytes.fromhex("04c00001"))
+                                                                or octets[5] == 6):
+                skip.add(i)
     for j, rd in enumerate(rec["devices"]):
         owed = collections.Counter()
-        for (delay, src, octets, bc, k) in events:
+        for i, (delay, src, octets, bc, k) in enumerate(events):
             kind, inv = C.classify(octets)
-            if kind == "confirmed" and k == j and not bc:
+            if kind == "confirmed" and k == j and not bc and i not in skip:
                 owed[(src, inv)] += 1
         got = collections.Counter()
         for (dst, o) in rd["sent"]:
@@ -842,7 +1071,18 @@ def run_script(ctx, Device, stream, wcfg, sc, label, expect, model_ok):
         up = expect.get("upload")
         if up and up[0] == j:
             owed[(up[1], up[2])] += 1
-        if dict(owed) != dict(got):
+        if stream == "async" and "special" not in label:
+            # ... and says exactly what the synchronous device says to the same request
+            for i, (delay, src, octets, bc, k) in enumerate(events):
+                kind, inv = C.classify(octets)
+                if kind != "confirmed" or i in skip:
+                    continue
+                mine = [bytes.fromhex(o)[2:] for (dst, o) in rd["sent"] if dst == "%02x" % src
+                        and (C.decode_apdu_header(bytes.fromhex(o)) or {}).get("invoke") == inv]
+                if mine != [fresh_apdu(octets)]:
+                    ctx.fail("async-reply", case, "request (invoke %d) answered %r; the synchronous device answers %r" % (
+                        inv, [m.hex() for m in mine], fresh_apdu(octets) and fresh_apdu(octets).hex()), errors=rec["errors"])
+        if dict(owed) != dict(got) and "special" not in label:
             ctx.fail("wrong-replies", case, "device %d owes (station, invoke): count %r and gave %r" % (
                 j, sorted(owed.items()), sorted(got.items())), errors=rec["errors"])
     up = expect.get("upload")
@@ -875,8 +1115,8 @@ def run_script(ctx, Device, stream, wcfg, sc, label, expect, model_ok):
     # ---- lockstep: one model per device (they share nothing)
     drv = core.Driver("drv_c10")
     for j, (rig, rd) in enumerate(zip(world.rigs, rec["devices"])):
-        if rd["delivered"] != rd["expected"]:
-            ctx.count("model/skipped", "undelivered")
+        if rd["delivered"] != rd["expected"] or rd["late_after_script"]:
+            ctx.count("model/skipped", "undelivered" if rd["delivered"] != rd["expected"] else "late-answer-after-script")
             continue
         ops = [{"op": "reset", "cfg": rig.cfg()}] + script_ops(rd)
         mrep = drv.ask(ops)[1:]
@@ -893,7 +1133,7 @@ def run_script(ctx, Device, stream, wcfg, sc, label, expect, model_ok):
                 if e is None:
                     a["asked"] = 0
                 elif e["k"] in ("silent", "other"):
-                    a["asked"] = "application silent"
+                    a["asked"] = 1          # the model is told: asked, no answer before the helper returned
                 elif e.get("own"):
                     a["asked"] = m["asked"] if (e["k"] == "reject" and e.get("r") == 0) else 0
                 else:
@@ -901,12 +1141,13 @@ def run_script(ctx, Device, stream, wcfg, sc, label, expect, model_ok):
                 b["asked"] = m["asked"]
             if "sv" in st:
                 a["sv"], b["sv"] = st["sv"], m["sv"]
+                a["dcc"], b["dcc"] = st["dcc"], m["dcc"]
             iv.append(a)
             mv.append(b)
             ctx.count("model/" + stream + "-steps", (st["kind"], m.get("br")))
         q = mrep[-1]
-        iv.append({"q": sorted(rd["fin"]["out"], key=by_invoke), "sv": rd["fin"]["sv"]})
-        mv.append({"q": sorted(q["out"], key=by_invoke), "sv": q["sv"]})
+        iv.append({"q": sorted(rd["fin"]["out"], key=by_invoke), "sv": rd["fin"]["sv"], "dcc": rd["dcc"]})
+        mv.append({"q": sorted(q["out"], key=by_invoke), "sv": q["sv"], "dcc": q["dcc"]})
         if core.canon(iv) != core.canon(mv):
             kx = next((i for i, (a, b) in enumerate(zip(iv, mv)) if core.canon(a) != core.canon(b)), None)
             ctx.disagree("model/" + stream, dict(case, device=j), {"at": kx, "impl": iv[kx], "errors": rec["errors"]},
@@ -922,8 +1163,13 @@ def replay_script(ctx, case):
 
 # ------------------------------------------------------------------ one shard
 
+SCRIPT_STREAMS = ("slow", "long", "two", "async", "dccpw")
+
+
 def shard(ctx, spec):
     stream, names = spec[0], spec[1]
+    if stream in SCRIPT_STREAMS:
+        return script_shard(ctx, spec)
     model_ok = spec[2] if len(spec) > 2 else True
     Device = C.build()
     T = C.templates()
@@ -983,10 +1229,7 @@ def shard(ctx, spec):
 def model_ops(frames, rec):
     ops = []
     for (src, fr, bc), per in zip(frames, rec["per"]):
-        ans = [dict(e) for e in per["entries"] if e["k"] not in ("silent", "other")]
-        for a in ans:
-            a.pop("own", None)
-        ops.append({"op": "recv", "src": "%02x" % src, "bc": bc, "hex": fr.hex(), "app": ans})
+        ops.append({"op": "recv", "src": "%02x" % src, "bc": bc, "hex": fr.hex(), "app": answers_of(per["entries"])})
     ops.append({"op": "quiesce"})
     ops.append({"op": "dcc", "d": rec["dcc"]})
     return ops
@@ -1127,7 +1370,7 @@ def judge(ctx, stream, frames, label, pos, rec, mrep, hist=()):
         if e is None:
             asked_i = 0
         elif e["k"] in ("silent", "other"):
-            asked_i = "application silent"
+            asked_i = 1 if e["k"] == "silent" else "application: unknown PDU"
         elif e.get("own") and e["k"] == "reject" and e.get("r") == 0:
             # RejectOther from the ASAP's catch-all: the real decoder tripped over a primitive value (e.g. a
             # character string ill-formed in its announced character set) that the model's decoder, which
@@ -1158,8 +1401,10 @@ def judge(ctx, stream, frames, label, pos, rec, mrep, hist=()):
     # DeviceCommunicationControl re-enable timer aside): the model knows one, the Network-Number-Is answer
     pend_i = sorted(d[0] for d in rec["late_tasks"] if not d[0].endswith(":enable_communications"))
     pend_m = ["_FunctionTask:network_number_is"] if q.get("pend") else []
-    impl_view.append({"q": qi, "sv": rec["fin"]["sv"], "cl": rec["fin"]["cl"], "net": rec["fin"]["net"], "pend": pend_i})
-    model_view.append({"q": qm, "sv": q["sv"], "cl": q["cl"], "net": q["net"] + [[q["net"][0]]], "pend": pend_m})
+    impl_view.append({"q": qi, "sv": rec["fin"]["sv"], "cl": rec["fin"]["cl"], "net": rec["fin"]["net"], "pend": pend_i,
+                      "dcc": rec["dcc"]})
+    model_view.append({"q": qm, "sv": q["sv"], "cl": q["cl"], "net": q["net"] + [[q["net"][0]]], "pend": pend_m,
+                       "dcc": q["dcc"]})
     ctx.count("model/quiesce", (len(rec["mid"]["sv"]), q.get("br")))
     if core.canon(impl_view) != core.canon(model_view):
         # keep the first difference readable
@@ -1236,11 +1481,12 @@ def specs(ctx):
 
 def run(ctx):
     """with the model driver: lockstep + oracles; without it (broken build): the oracles alone"""
-    core.run_shards(ctx, "harness.c10_model", "shard", specs(ctx))
     ok = bool(getattr(ctx, "model_ok", False))
-    sp = [("slow", [str(k), "4"], ok) for k in range(4)] + [("long", [str(k), "4"], ok) for k in range(4)]
-    sp += [("two", [str(k), "4"], ok) for k in range(4)]
-    core.run_shards(ctx, "harness.c10_model", "script_shard", sp)
+    sp = [("slow", [str(k), "3"], ok) for k in range(3)] + [("long", [str(k), "4"], ok) for k in range(4)]
+    sp += [("two", [str(k), "3"], ok) for k in range(3)]
+    sp += [("async", [str(k), "2"], ok) for k in range(2)] + [("dccpw", [str(k), "4"], ok) for k in range(4)]
+    # the longest shards first, all in one pool
+    core.run_shards(ctx, "harness.c10_model", "shard", sp + specs(ctx))
 
 
 def unhex(frames):
